@@ -885,7 +885,10 @@ def rule_bottomup(ctx):
         if g.kind == 'bool':
             for sc in g.subject_calls():
                 if 'empty' in sc.name and type_head(sc.impl_self or '') == bu['queue_adt']:
-                    stop_edges.add(('e', bb, k))
+                    # the edge on which the queue *is* empty: is_empty() = true, or is_not_empty() = false (polarity of the helper is checked by Q5)
+                    says_empty = (g.truth() is True) if sc.name == 'is_empty' else (g.truth() is False)
+                    if says_empty:
+                        stop_edges.add(('e', bb, k))
     none_b = _none_exit_blocks(rnb)
     seen = rnb.reach([0], avoid=ctx.both(inf, lambda n: n in stop_edges))
     bad = [b for b in none_b if b in seen]
@@ -1134,6 +1137,21 @@ def rule_queue(ctx):
         hit = [x for x in some_defs if x in seen]
         R.ob('Q4-polarity', b.path, not hit and bool(tr_false), 'a queued task that the required task does not depend on is skipped' if not hit and tr_false
              else 'a queued task is selected although the required task does not depend on it', ctx.where(b), props=('C04',))
+    # Q5: the emptiness helper reports the vector's emptiness with the polarity its name says
+    for hb in F.bodies.values():
+        if hb.kind == 'AssocFn' and hb.impl_self and type_head(hb.impl_self) == bu['queue_adt'] and not hb.impl_trait and hb.name in ('is_not_empty', 'is_empty'):
+            ret = hb.orig_local(0)
+            neg = None
+            for d in hb.defs.get(0, []):
+                if d[0] == 'stmt' and d[3]['k'] == 'un' and d[3]['uop'] == 'Not':
+                    src = hb.orig_operand(F.operand(d[3]['a']))
+                    if all(o.kind == 'call' and hb.calls[o.key].qname == 'std::vec::Vec::is_empty' and ctx.has_field(hb.orig_operand(hb.calls[o.key].args[0]), vec_f) for o in src) and src:
+                        neg = True
+                elif d[0] == 'call' and d[2].qname == 'std::vec::Vec::is_empty' and ctx.has_field(hb.orig_operand(d[2].args[0]), vec_f):
+                    neg = False
+            good = (neg is True) if hb.name == 'is_not_empty' else (neg is False)
+            R.ob('Q5-emptiness', hb.path, good, '%s reports exactly whether the queue vector is %sempty' % (hb.name, 'non-' if hb.name == 'is_not_empty' else '') if good
+                 else '%s does not return %sVec::is_empty of the queue vector' % (hb.name, '!' if hb.name == 'is_not_empty' else ''), ctx.where(hb), props=('C03', 'C04'))
     # Q2: add = push only when not already present, and inserts into the set
     b = bu['q_add']
     inf = ctx.infeasible(b)
